@@ -302,7 +302,7 @@ struct Counters { long pause = 0, resume = 0, setPaused = 0, execs = 0; };
 static std::mutex l_CountersMutex;           /* signals and commands also run on other threads (X, thread pool) */
 static NotificationComponent::Ptr l_NC;
 static CheckerComponent::Ptr l_CC;
-static std::atomic<long> l_NotifQueued{0}, l_NotifDone{0};
+static std::atomic<long> l_NotifQueued{0}, l_NotifDone{0}, l_NotifSignalled{0};
 static std::string l_TimerSeq;               /* which of the two timers ran during the current pump, in order */
 static std::vector<std::string> l_TimerObs;
 
@@ -373,7 +373,8 @@ static void EnsureListener()
  * worker threads read the object registry.  Join them before the registry is touched and before observing. */
 static void WaitNotifs()
 {
-	for (int i = 0; l_NotifDone.load() < l_NotifQueued.load(); i++) {
+	/* both: the command has run, and the helper has emitted its last signal (whose cluster handlers enqueue relay messages) */
+	for (int i = 0; l_NotifDone.load() < l_NotifQueued.load() || l_NotifSignalled.load() < l_NotifQueued.load(); i++) {
 		if (i > 100000) Die("notification helpers did not finish");
 		std::this_thread::sleep_for(std::chrono::microseconds(100));
 	}
@@ -789,6 +790,7 @@ static Value NotifExec(const std::vector<Value>& args)
 		std::unique_lock<std::mutex> lock(l_CountersMutex);
 		l_Counters[static_cast<ConfigObject *>(n.get())].execs++;
 	}
+	l_NotifDone++;
 	return Empty;
 }
 
@@ -826,14 +828,15 @@ static int NodeMain(int argc, char **argv, const std::string& mode, char node)
 	});
 
 	/* notification helpers run on the thread pool: queued (synchronous signal at the end of BeginExecuteNotification)
-	 * vs. done (signal after the command returned) */
+	 * vs. done (counted by the recording command itself AND by the helper's last signal, whichever comes later) */
 	Checkable::OnNotificationSentToAllUsers.connect([](const Notification::Ptr&, const Checkable::Ptr&, const std::set<User::Ptr>& users,
 		const NotificationType&, const CheckResult::Ptr&, const String&, const String&, const MessageOrigin::Ptr&) {
 		l_NotifQueued += (long)users.size();
 	});
+
 	Checkable::OnNotificationSentToUser.connect([](const Notification::Ptr&, const Checkable::Ptr&, const User::Ptr&,
 		const NotificationType&, const CheckResult::Ptr&, const String&, const String&, const String&, const MessageOrigin::Ptr&) {
-		l_NotifDone++;
+		l_NotifSignalled++;
 	});
 
 	NotificationCommand::Ptr ncmd = new NotificationCommand();
